@@ -103,9 +103,14 @@ class OpGen:
             self.vars[name] = {"type": "Boolean!", "default": None, "provided": True, "value": r.choice([True, False])}
         elif k < 0.8:
             self.vars[name] = {"type": "Boolean", "default": r.choice(["true", "false"]), "provided": False, "value": None}
-        else:
+        elif k < 0.93:
             self.vars[name] = {"type": "Boolean", "default": r.choice(["true", "false"]), "provided": True,
                                "value": r.choice([True, False])}
+        else:
+            # nullable variable with a default, explicitly set to null: the validator accepts it at `if: Boolean!`
+            # (the default makes it allowed) and the condition cannot be evaluated at run time -> field error (4e87d3d)
+            self.vars[name] = {"type": "Boolean", "default": r.choice(["true", "false"]), "provided": True, "value": None}
+            self.features.add("directive-null-variable")
         self.features.add("directive-variable")
         return name
 
@@ -116,7 +121,11 @@ class OpGen:
         out = []
         names = r.choice([["skip"], ["include"], ["skip", "include"], ["include", "skip"]])
         for n in names:
-            if r.random() < 0.5:
+            if r.random() < 0.03:
+                # a list literal at `if: Boolean!` passes validation (finding V8) and is a field error at run time
+                out.append("@%s(if: [%s])" % (n, r.choice(["true", "false"])))
+                self.features.add("directive-bad-literal")
+            elif r.random() < 0.5:
                 out.append("@%s(if: %s)" % (n, r.choice(["true", "false"])))
             else:
                 out.append("@%s(if: $%s)" % (n, self.bool_var()))
